@@ -106,6 +106,12 @@ structure Sim where
   closedPorts : List String := []   -- link keys whose receiver closed/dropped (sends may fail)
   /-- port forwarders (`Receiver::forward`): source link key ↦ destination link key -/
   fwd : Assoc String := []
+  /-- wires whose delivery (`release`) the script restricted -/
+  releaseOpen : Assoc Bool := []
+  /-- link key ↦ line at which a `Receiver::close()` call of its receiving half returned -/
+  closeOk : Assoc Nat := []
+  /-- line of the latest quiescent point -/
+  lastSettle : Nat := 0
 
 def Sim.diff (s : Sim) (line : Nat) (what : String) : Sim :=
   if s.exact && !s.teardown then
@@ -604,6 +610,7 @@ def Sim.onOp (s : Sim) (line : Nat) (ws : List String) : Sim :=
   | ["mode", m] => { s with exact := m == "exact" }
   | ["dropall"] => { s with teardown := true }
   | ["window", side, n] => { s with windowOpen := s.windowOpen.set side (n == "inf") }
+  | ["release", side, n] => { s with releaseOpen := s.releaseOpen.set side (n == "inf") }
   | "wire" :: side :: rest =>
     match kvGet rest "window" with
     | some n => { s with windowOpen := s.windowOpen.set side (n == "inf") }
@@ -619,6 +626,19 @@ def Sim.onRet (s : Sim) (line : Nat) (k : String) (res : List String) : Sim :=
     match s.links.get? key with
     | none => s
     | some l =>
+      -- c11: a close() that returned is eventually observable at the sending half: once the connection has been
+      -- quiescent with every wire open after the call returned, the sender is closed
+      let s := if role == "close" && res == ["ok"] && (s.closeOk.get? key).isNone then { s with closeOk := s.closeOk.set key line } else s
+      let allOpen := (s.windowOpen.get? "A").getD true && (s.windowOpen.get? "B").getD true &&
+                     (s.releaseOpen.get? "A").getD true && (s.releaseOpen.get? "B").getD true
+      let s := if role == "isclosed" && res == ["isclosed=0"] && allOpen && !s.teardown then
+          match s.closeOk.get? key, s.callLine.get? k with
+          | some cl, some ol =>
+            if cl < s.lastSettle && s.lastSettle < ol then
+              s.fail "c11" line s!"{k} on {key}: the sender is not closed although close() of the receiving half returned (line {cl}) and the connection has been quiescent with all wires open since"
+            else s
+          | _, _ => s
+        else s
       -- real-trace predicate bookkeeping
       let wasPartial := l.mPartial.isSome
       let l := if role == "recv" then l.monRecv res else l
@@ -811,6 +831,9 @@ def stepLine (a : RunAcc) (n : Nat) (line : String) : IO RunAcc := do
       | none => []
     let s := s.onSettled n rest
     let s := s.c03AtSettle n pend a.creditLines
+    -- (a quiescent point counts only if every wire was open)
+    let s := if (s.windowOpen.get? "A").getD true && (s.windowOpen.get? "B").getD true &&
+                (s.releaseOpen.get? "A").getD true && (s.releaseOpen.get? "B").getD true then { s with lastSettle := n } else s
     return { a with sim := s, creditLines := [] }
   | "run" :: x :: res =>
     -- no fault is injected in these modes and both endpoints are real: a dispatcher that ends with an
